@@ -251,9 +251,95 @@ def case_euler(H):
         H.certify(name + '/unit', T.dot(q, q), z3.RealVal(1), rels, hyps=H.hyps_of(ctx), replay=replay, key='C11/euler2SO3')
 
 
+def case_euler_roundtrip(H, g):
+    """Rz(yaw) Ry(pitch) Rx(roll) of the angles X.euler() returns is the rotation of X whenever |sin(pitch)| < 1 - eps, angles are in
+    their principal ranges and finite.  Together with euler2SO3(e) == Rz Ry Rx for ALL e (case_euler) this is the round-trip clause."""
+    name = 'C11/%s/Rz.Ry.Rx(X.euler())==R(X)' % g
+    EPS = z3.RealVal('2/10000')
+
+    def prog(m):
+        m.ctx.split_where = True          # the gimbal-lock selection is a path split, not an If-term
+        X, xs = sym_group(m, g, 'x', 340)
+        e = X.euler()
+        return m.full_terms(e), m.poisons(e), xs
+
+    def replay(model):
+        xv = normalize_group(g, tensor_from_env(['x%d' % i for i in range(GDIM[g])], model))
+        X = pp.LieTensor(xv, ltype=GTYPE[g])
+        e = X.euler()
+        if not torch.isfinite(e).all():
+            return True, 'euler() returned non-finite angles %s at X=%s' % (e.tolist(), xv.tolist())
+        import math
+        R = X.rotation().matrix()
+        if abs(R[2, 0].item()) >= 1 - 2e-4:
+            return False, 'gimbal-lock region (outside the clause)'
+        r, p_, y = e.tolist()
+        Rz = torch.tensor([[math.cos(y), -math.sin(y), 0], [math.sin(y), math.cos(y), 0], [0, 0, 1]], dtype=DT)
+        Ry = torch.tensor([[math.cos(p_), 0, math.sin(p_)], [0, 1, 0], [-math.sin(p_), 0, math.cos(p_)]], dtype=DT)
+        Rx = torch.tensor([[1, 0, 0], [0, math.cos(r), -math.sin(r)], [0, math.sin(r), math.cos(r)]], dtype=DT)
+        err = (Rz @ Ry @ Rx - R).abs().max().item()
+        rng = abs(r) > math.pi + 1e-12 or abs(y) > math.pi + 1e-12 or abs(p_) > math.pi / 2 + 1e-12
+        err2 = (pp.euler2SO3(e).matrix() - R).abs().max().item()
+        return err > 1e-9 or err2 > 1e-9 or rng, ('Rz Ry Rx of X.euler()=%s differs from the rotation of X by %.3g (euler2SO3 round trip: %.3g)%s at X=%s'
+                                                  % (e.tolist(), err, err2, ', angle outside its principal range' if rng else '', xv.tolist()))
+
+    for ctx, (e, pe, xs) in run_paths(H, name, prog, track_poison=True, max_paths=8):
+        pn = H.paths
+        t, q, s = parts(g, xs)
+        x, y, z, w = q
+        t2 = 2 * (w * y - z * x)
+        ang = []
+        for nm, a in zip(('r', 'p', 'y'), e):
+            ang.append((ctx.tfun('sin', a), ctx.tfun('cos', a)))
+        hyp = H.hyps_of(ctx) + [t2 < 1 - EPS, t2 > -(1 - EPS)]
+        if z3.is_rational_value(z3.simplify(e[0])):
+            # the gimbal-lock selection (roll := 0): outside the round-trip clause; only finiteness is asked
+            ps = [p_ for p_ in pe if p_ is not None]
+            H.prove('%s/path%d/gimbal-region/finite' % (name, pn), list(ctx.assume) + list(ctx.pc), z3.Not(z3.Or(ps)) if ps else z3.BoolVal(True),
+                    replay=replay, key='C11/euler-roundtrip', timeout=20)
+            continue
+        (sr, cr), (sp, cp), (sy, cy) = ang
+        key = 'C11/euler-roundtrip'
+        # staged: the sines and cosines of the returned angles in terms of the quaternion
+        t0, t1 = 2 * (w * x + y * z), (w * w + z * z) - (x * x + y * y)
+        t3, t4 = 2 * (w * z + x * y), (w * w + x * x) - (y * y + z * z)
+        unit = T.dot(q, q) == 1
+        lem = [('sin(pitch)', z3.And(sp == t2, cp > 0)),
+               ('unit', unit),
+               ('pyth(pitch)', sp * sp + cp * cp == 1), ('pyth(roll)', sr * sr + cr * cr == 1), ('pyth(yaw)', sy * sy + cy * cy == 1),
+               ('cos(pitch)^2', z3.And(cp * cp == t0 * t0 + t1 * t1, cp * cp == t3 * t3 + t4 * t4), ['sin(pitch)', 'pyth(pitch)', 'unit']),
+               ('roll:atan2', z3.And(t0 * cr == t1 * sr, t0 * sr + t1 * cr > 0)),
+               ('yaw:atan2', z3.And(t3 * cy == t4 * sy, t3 * sy + t4 * cy > 0)),
+               ('roll', z3.And(sr * cp == t0, cr * cp == t1), ['roll:atan2', 'pyth(roll)', 'cos(pitch)^2', 'sin(pitch)']),
+               ('yaw', z3.And(sy * cp == t3, cy * cp == t4), ['yaw:atan2', 'pyth(yaw)', 'cos(pitch)^2', 'sin(pitch)'])]
+        hy, lobs, tab = H.chain('%s/path%d' % (name, pn), hyp, lem, replay=replay, key=key, timeout=(30 if H.quick else 120))
+        Rz = [[cy, -sy, 0], [sy, cy, 0], [0, 0, 1]]
+        Ry = [[cp, 0, sp], [0, 1, 0], [-sp, 0, cp]]
+        Rx = [[1, 0, 0], [0, cr, -sr], [0, sr, cr]]
+        got = T.flat(T.mm(T.mm([[T.R(v) for v in r_] for r_ in Rz], [[T.R(v) for v in r_] for r_ in Ry]), [[T.R(v) for v in r_] for r_ in Rx]))
+        want = T.flat(T.quat_rot(q))
+        rels = [sr * cp - t0, cr * cp - t1, sy * cp - t3, cy * cp - t4, sp - t2, cp * cp - (t0 * t0 + t1 * t1), T.dot(q, q) - 1]
+        used = ['sin(pitch)', 'unit', 'cos(pitch)^2', 'roll', 'yaw']
+        for i in range(9):
+            d = got[i] - want[i]
+            # cos(pitch)^2 (R_oracle - R(q)) is a polynomial identity modulo the lemma relations (certificate); cos(pitch) > 0 finishes
+            oc = H.certify('%s/path%d/cos(pitch)^2.R[%d]' % (name, pn, i), cp * cp * got[i], cp * cp * want[i], rels, replay=replay, key=key,
+                           hyps=[tab[u][0] for u in used], depends=[tab[u][1] for u in used], elim=[sr, cr, sy, cy, sp, cp],
+                           timeout=(30 if H.quick else 120))
+            H.prove('%s/path%d/R[%d]' % (name, pn, i), [cp * cp * got[i] == cp * cp * want[i], cp > 0], got[i] == want[i], replay=replay, key=key,
+                    depends=[oc, tab['sin(pitch)'][1]], timeout=20)
+        from symx.engine import PI
+        H.prove('%s/path%d/principal-ranges' % (name, pn), hyp, z3.And(e[0] > -PI, e[0] <= PI, e[2] > -PI, e[2] <= PI, e[1] >= -PI / 2, e[1] <= PI / 2),
+                replay=replay, key=key, timeout=20)
+        ps = [p_ for p_ in pe if p_ is not None]
+        # (focused: validity of X and the path condition suffice; the transcendental axioms are irrelevant here)
+        H.prove('%s/path%d/finite' % (name, pn), list(ctx.assume) + list(ctx.pc), z3.Not(z3.Or(ps)) if ps else z3.BoolVal(True), replay=replay, key=key, timeout=20)
+        H.reach('%s/path%d/reach' % (name, pn), hyp)
+
+
 def run(H):
     H.assumptions += ['exact real arithmetic', 'inputs are matrices of valid elements (|q|=1, scale in [1e-3,1e3])']
-    H.bounds += ['single items', 'layouts 3x3/3x4/4x4', 'Euler round trip euler2SO3(X.euler()) attempted in the thorough tier only']
+    H.bounds += ['single items', 'layouts 3x3/3x4/4x4', 'Euler round trip: composed from euler2SO3(e) == Rz Ry Rx for all e and Rz Ry Rx(X.euler()) == R(X) for all X outside the gimbal region (quick: SO3; thorough: all groups)']
     only = getattr(H, 'only', None)
     cases = [('SO3', '3x3', True, False), ('SO3', '4x4', False, False), ('SE3', '4x4', True, False), ('SE3', '3x4', True, True),
              ('RxSO3', '3x3', True, False), ('Sim3', '4x4', True, False)]
@@ -276,6 +362,8 @@ def run(H):
             H.engine_error('reject', e)
     try:
         case_euler(H)
+        for g in (['SO3'] if H.quick else GROUPS):
+            case_euler_roundtrip(H, g)
     except Exception as e:
         import traceback; traceback.print_exc()
         H.engine_error('euler', e)
